@@ -410,7 +410,11 @@ func CloneExpression(expr ast.Expression) ast.Expression {
 			ident = ast.NewIdentifier(ClonePosition(e.Ident.Position), e.Ident.Name)
 		}
 		typ := CloneExpression(e.Type).(*ast.FuncType)
-		expr2 = ast.NewFunc(ClonePosition(e.Position), ident, typ, CloneNode(e.Body).(*ast.Block), e.DistFree, e.Format)
+		var body *ast.Block
+		if e.Body != nil {
+			body = CloneNode(e.Body).(*ast.Block)
+		}
+		expr2 = ast.NewFunc(ClonePosition(e.Position), ident, typ, body, e.DistFree, e.Format)
 
 	case *ast.FuncType:
 		var parameters []*ast.Parameter
